@@ -315,6 +315,12 @@ def c04_annotations(run, v1, ed):
                 created[start + 1] = ("SymAddrConst", ("g",), 0)
             elif pn == "symexpr":
                 created[start + 3] = ("SymAddrConst", ("L2",), 0)
+            elif pn == "symexprimm":
+                created[start + 2] = ("SymAddrConst", ("L2",), 0)       # 83 05 <disp32> <imm8>
+            elif pn == "symexprimm4":
+                created[start + 3] = ("SymAddrConst", ("L2",), 0)       # 48 c7 05 <disp32> <imm32>
+            elif pn == "symexpradd":
+                created[start + 3] = ("SymAddrConst", ("L2",), 4)       # 48 8d 05 <disp32>, addend 4
             same_pos_before[pos] += len(pb)
     for k, (ty, syms, off) in created.items():
         g = s1.get(k)
